@@ -29,6 +29,7 @@ import (
 	"git.metabarcoding.org/obitools/obitools4/obitools4/pkg/obifp"
 	"git.metabarcoding.org/obitools/obitools4/obitools4/pkg/obikmer"
 	"git.metabarcoding.org/obitools/obitools4/obitools4/pkg/obiseq"
+	"git.metabarcoding.org/obitools/obitools4/obitools4/pkg/obitools/obiconsensus"
 )
 
 func init() {
@@ -844,6 +845,66 @@ func recordC19(env *Env) {
 	for i := 0; i < nGraph; i++ {
 		recordGraph(env, rng, i, maxlen)
 	}
+	for i := 0; i < env.optInt("consensus", nGraph/4); i++ {
+		recordCons(env, rng, i, maxlen)
+	}
+}
+
+// obiconsensus.BuildConsensus: the graph is rebuilt with a larger k until it has no cycle, then
+// LongestConsensus(min_cov = 0) is returned, annotated with the k that was used.
+func emitCons(env *Env, sc string, k0 int, seqs []string, counts []int) {
+	S := [][]string{}
+	bs := obiseq.BioSequenceSlice{}
+	for i, s := range seqs {
+		S = append(S, c19Chars(s))
+		b := obiseq.NewBioSequence(fmt.Sprintf("s%d", i), []byte(s), "")
+		if counts[i] != 1 {
+			b.SetCount(counts[i])
+		}
+		bs = append(bs, b)
+	}
+	ev := map[string]any{"kind": "cons", "sc": sc, "k0": k0, "kused": -1, "S": S, "C": counts, "cons": []int{}, "err": 0, "pan": 0, "panmsg": ""}
+	func() {
+		defer func() {
+			if r := recover(); r != nil {
+				ev["pan"] = 1
+				ev["panmsg"] = panicText(r)
+			}
+		}()
+		seq, err := obiconsensus.BuildConsensus(bs, "consensus", k0, 0, false, "")
+		if err != nil || seq == nil {
+			ev["err"] = 1
+			return
+		}
+		if k, ok := seq.GetIntAttribute("obiconsensus_kmer_size"); ok {
+			ev["kused"] = k
+		}
+		ev["cons"] = lettersDigits(string(seq.Sequence()))
+	}()
+	env.emit(ev)
+}
+
+func recordCons(env *Env, rng *rand.Rand, i, maxlen int) {
+	var seqs []string
+	var counts []int
+	k0 := 4 + rng.Intn(20)
+	sc := "reads"
+	t := randPlain(rng, 40+rng.Intn(maxlen))
+	if i%3 == 1 { // a repeat forces the k-mer size up
+		sc = "repeat"
+		k0 = 3 + rng.Intn(6)
+		p := rng.Intn(len(t) - 12)
+		unit := append([]byte{}, t[p:p+6+rng.Intn(6)]...)
+		q := rng.Intn(len(t))
+		t = append(append(append([]byte{}, t[:q]...), unit...), t[q:]...)
+	}
+	seqs = append(seqs, string(t))
+	counts = append(counts, 3+rng.Intn(20))
+	for n := 1 + rng.Intn(5); n > 0; n-- {
+		seqs = append(seqs, string(mutate(rng, t, 1+rng.Intn(2))))
+		counts = append(counts, 1+rng.Intn(6))
+	}
+	emitCons(env, sc, k0, seqs, counts)
 }
 
 func strList(v any) []string {
@@ -871,6 +932,16 @@ func reobserve(env *Env, ev map[string]any) {
 			counts = append(counts, int(c.(float64)))
 		}
 		emitGraph(env, rand.New(rand.NewSource(env.seed)), ev["sc"].(string), int(ev["k"].(float64)), seqs, counts)
+	case "cons":
+		seqs := []string{}
+		for _, s := range ev["S"].([]any) {
+			seqs = append(seqs, strings.Join(strList(s), ""))
+		}
+		counts := []int{}
+		for _, c := range ev["C"].([]any) {
+			counts = append(counts, int(c.(float64)))
+		}
+		emitCons(env, ev["sc"].(string), int(ev["k0"].(float64)), seqs, counts)
 	}
 }
 
@@ -1169,10 +1240,11 @@ func recordGraph(env *Env, rng *rand.Rand, i, maxlen int) {
 		k = 4 + rng.Intn(20)
 		t := randPlain(rng, 30+rng.Intn(maxlen/2))
 		p := rng.Intn(len(t) - k - 1)
-		unit := t[p : p+k+rng.Intn(6)]
-		if p+len(unit) > len(t) {
-			unit = t[p:]
+		end := p + k + rng.Intn(6)
+		if end > len(t) {
+			end = len(t)
 		}
+		unit := t[p:end]
 		q := rng.Intn(len(t))
 		t2 := append(append(append([]byte{}, t[:q]...), unit...), t[q:]...)
 		add(t2, 1+rng.Intn(3))
